@@ -29,7 +29,10 @@ type World struct {
 	Multi        crypto.PublicKeyMultiSignature
 	MultiMembers []crypto.PrivateKey
 	Victim       int // index (mod candidates) of the operator that is absent most often
-	entropy      int64
+	// OddRecipients: about a quarter of the worlds have users who occasionally send to a recipient that is not 20 bytes
+	// (rapid's IntRange is heavily biased to the range ends, so the rate is fixed per world rather than per send)
+	OddRecipients bool
+	entropy       int64
 }
 
 // Chains used by generated nodes/apps (all supported by the default pocketcore params).
@@ -117,6 +120,7 @@ func GenWorld(rt *rapid.T) *World {
 		// that the other properties can explore behind it.
 		s.NodeParams.ProposerAllocation = 1
 	}
+	w.OddRecipients = rapid.Bool().Draw(rt, "oddRecipientWorldA") && rapid.Bool().Draw(rt, "oddRecipientWorldB")
 	return w
 }
 
@@ -211,7 +215,7 @@ func (w *World) GenSend(rt *rapid.T) GenTx {
 	amt := rapid.SampledFrom([]int64{1, 999, 10_000, 1_000_000, 49_990_000, 50_000_000, 20_000_000_000, 90_000_000_000}).Draw(rt, "amt")
 	msg := &nodesTypes.MsgSend{FromAddress: Addr(from), ToAddress: Addr(to), Amount: sdk.NewInt(amt)}
 	toName := w.KeyName(to)
-	if rapid.IntRange(0, 9).Draw(rt, "oddRecipient") == 0 {
+	if w.OddRecipients && rapid.IntRange(0, 9).Draw(rt, "oddRecipient") == 0 {
 		// nothing in the encoding or in ValidateBasic restricts a recipient to 20 bytes (e.g. a pasted 32-byte public key)
 		msg.ToAddress = OddAddress(rapid.IntRange(0, 3).Draw(rt, "oddWhich"))
 		toName = fmt.Sprintf("odd(%d bytes)", len(msg.ToAddress))
